@@ -184,7 +184,7 @@ CHECKS = {
         text='Theorems in coq/Props/C04.v: the translated per-slice computation equals ln(dV * sum exp x) for every non-empty slice and '
              'dV>0, commutes with adding a constant, normalised values times dV sum to one and are shift invariant, and the shift '
              'used is minus the slice maximum so that all exp arguments are <= 0 with one equal to 0 (sum in [dV, n dV]): no overflow '
-             'or total underflow for any magnitudes. The unit tests use four small values.',
+             'or total underflow for any magnitudes; composition: marginalising a slice in parts combines by log-sum-exp, marginalising one axis after another equals marginalising both at once with the product cell size (any number/lengths of non-empty rows), a normalised slice is a fixed point of normalisation. The unit tests use four small values.',
         note=AX_R + 'finite entries only in the real-valued model; -inf entries, container types (ndarray/matrix/LnPDF), axes and rounding '
              'are judged on the implementation against 40-digit mpmath; one known finding (axis of length 1 ignores dV).',
         design='6 C04'),
